@@ -53,7 +53,7 @@ FILES = [
 
 # (class, member): member is a property name (its setter is the mutator) or a method name
 TARGETS = [
-    ('CSSStyleSheet', ['cssText', 'encoding', 'insertRule', 'deleteRule', 'add', '_setCssTextWithEncodingOverride']),
+    ('CSSStyleSheet', ['cssText', 'encoding', 'insertRule', 'deleteRule', 'add']),
     ('_Namespaces', ['__setitem__', '__delitem__']),
     ('CSSCharsetRule', ['cssText', 'encoding']),
     ('CSSComment', ['cssText']),
